@@ -45,6 +45,12 @@ func c01Verify(t gen.TB, w *gen.World, raw []byte, l gen.Level, expect, class st
 		return true
 	}
 	o := w.Options(l, w.NewGetter(), nil)
+	// the options value may have been in use: earlier calls (on siblings of the world's genuine quote) that failed at
+	// one stage or another - see optionsPrehistory
+	if pk := prehistoryKind(raw); pk != 0 {
+		optionsPrehistory(w.Raw, o, pk, w.NewGetter())
+		gen.Class("options-value-used-before")
+	}
 	v := gen.Call(func() error { return verify.RawTdxQuote(raw, o) })
 	st := gen.RefLinks(raw)
 	if !check("raw", v, st) {
